@@ -359,7 +359,7 @@ fn tamper(rng: &mut Rng, g: &mut Group) -> Tampered {
     let mut certs = a.clone();
     let table_of = |cs: &Vec<Certificate>| cs.iter().map(|c| (c.hash.clone(), c.clone())).collect::<Vec<_>>();
     let rehash_it = rng.coin();
-    let kind_sel = rng.below(24);
+    let kind_sel = rng.below(26);
     let std_target = !certs[j].is_genesis();
     let mk = |kind: &str, certs: Vec<Certificate>, must_reject: bool, note: String| Tampered {
         kind: kind.to_string(),
@@ -432,6 +432,25 @@ fn tamper(rng: &mut Rng, g: &mut Group) -> Tampered {
             certs[j].aggregate_verification_key = fx.compute_and_encode_concatenation_aggregate_verification_key().as_str().try_into().unwrap();
             if rehash_it { rehash_up(&mut certs, &path, pos); }
             mk(&format!("avk-swap/{}", suffix), certs, std_target || !rehash_it, format!("cert {}{}", j, if std_target { "" } else { " (genesis: its own AVK is not constrained by the property)" }))
+        }
+        24 | 25 => {
+            // the certificate's AVK keeps the genuine Merkle commitment but states another total stake
+            // (the honest multi-signature still verifies under a LOWER total stake: every lottery gets easier);
+            // the key is no longer the one of the certificate it links to / the one the preceding epoch signed
+            let hexs = certs[j].aggregate_verification_key.to_json_hex().unwrap();
+            let mut v: serde_json::Value = serde_json::from_slice(&hex::decode(&hexs).unwrap()).unwrap();
+            let old = v["total_stake"].as_u64();
+            match old {
+                Some(t) if std_target => {
+                    let new_t = match rng.below(4) { 0 => t / 2, 1 => t.saturating_sub(1), 2 => t / 16 + 1, _ => t + 1 };
+                    v["total_stake"] = serde_json::json!(new_t);
+                    let enc = hex::encode(serde_json::to_vec(&v).unwrap());
+                    certs[j].aggregate_verification_key = enc.as_str().try_into().unwrap();
+                    if rehash_it { rehash_up(&mut certs, &path, pos); }
+                    mk(&format!("avk-total-stake/{}", suffix), certs, new_t != t, format!("cert {} AVK total stake {} -> {} (same Merkle commitment)", j, t, new_t))
+                }
+                _ => mk("untouched", certs, false, "no-op".into()),
+            }
         }
         11 | 12 => {
             // re-signed by the adversary's fixture: valid multi-signature under the adversary's AVK
